@@ -170,6 +170,10 @@ fn check_layout<T: CompactEncoding + PartialEq, const CAP: usize, const ALL: boo
     let j: usize = kani::any();
     kani::assume(j < CAP);
     assert!(buf[j] == r.buf[j]);
+    // decode from the reference buffer (just shown byte-equal): it was written by direct indexing,
+    // so CBMC keeps its constant bytes constant (the crate writes through memcpy)
+    let buf = &r.buf;
+    let n = r.pos; // == encoded_size (asserted above); a constant for CBMC, unlike the crate-computed n
     let (d, rest) = T::decode(&buf[..n]).unwrap();
     assert!(rest.is_empty());
     assert!(d == *v);
@@ -318,7 +322,7 @@ fn c11_data_upgrade_prefix() {
         length: kani::any(),
         nodes: vec![],
         additional_nodes: vec![],
-        signature: any_bytes_upto4(),
+        signature: vec![],
     };
     let mut r = W::<32>::new();
     r.uint(v.start);
@@ -327,6 +331,25 @@ fn c11_data_upgrade_prefix() {
     r.uint(0);
     r.bytes(&v.signature);
     check_encode(&v, &r);
+}
+
+#[kani::proof]
+#[kani::stub(std::fmt::format, stub_format)]
+fn c11_data_upgrade_sig() {
+    let v = DataUpgrade {
+        start: 0x1_0000_0000,
+        length: 1,
+        nodes: vec![],
+        additional_nodes: vec![],
+        signature: any_bytes_upto4(),
+    };
+    let mut r = W::<32>::new();
+    r.uint(v.start);
+    r.uint(v.length);
+    r.uint(0);
+    r.uint(0);
+    r.bytes(&v.signature);
+    check(&v, &r);
 }
 
 /// The integer codec itself over the full u64 range, including the list/byte-string length prefix
